@@ -69,7 +69,7 @@ CHECKS = {
          "DESIGN.md §4 C07"),
  "C08": ("A-sequential-explorer",
          "exhaustive enumeration of stream pairs (base stream x single/all border perturbation x frame position; cold-pixel substitutions) through the real detector and processor; relational oracle",
-         "Every 3-frame (4) base stream with one varying interior pixel over 6 boundary values at every interior position x every single border pixel rewritten with {0,65535} ({0,1,T,65535}) in each frame and in all frames, all border pixels at once, and every sub-threshold interior pixel replaced by another value <= T; resolutions 5x4, 4x5 (edge 1), 6x5 (edge 2); fixed threshold (4 modes) and dynamic threshold with bounds unset/set. Detection results, sink traces (incl. threshold/background at each start) and the interior background/threshold after every frame must be identical within a pair.",
+         "Every 3-frame (4) base stream with one varying interior pixel over 6 boundary values at every interior position x every single border pixel rewritten with {0,65535} ({0,1,T,65535}) in each frame and in all frames, all border pixels at once, and every sub-threshold interior pixel replaced by another value <= T; resolutions 5x4, 4x5 (edge 1), 6x5 (edge 2); fixed threshold (4 modes) and dynamic threshold with bounds unset/set; stage 2: every pattern of {normal, inside an FFC period, camera reset} over 4 frames x one varying interior pixel x border perturbations (single border pixels and the whole border, one frame or all frames). Detection results, sink traces (incl. threshold/background at each start) and the interior background/threshold after every frame must be identical within a pair.",
          "Deep layer reads detector.background/tempThresh by name; perturbation values outside the stated sets are not enumerated.",
          "DESIGN.md §4 C08"),
  "C09": ("A-sequential-explorer",
@@ -84,12 +84,12 @@ CHECKS = {
          "DESIGN.md §4 C15"),
  "C10": ("C-crash-point-enumerator",
          "exhaustive crash-point / torn-write enumeration of short recording histories on the real CPTVFileRecorder + go-cptv writer (os->vos import-rewrite overlay), directory oracle at every operation boundary and after the real start-up clean-up",
-         "For each of five recording histories (single, back-to-back, discarded on connection loss, motion+test interleaved, motion+continuous) and frame sizes 8x6 (and 160x120 thorough): one run with a concurrent-observer decode of every *.cptv at EVERY file-system operation boundary, then one run per crash point (kill before operation k, k=1..N) and per torn write, each followed by the real deleteTempFiles; only complete, content-exact recordings may bear .cptv and nothing else may remain.",
+         "For each of eight recording histories (single, back-to-back, discarded on connection loss, failing start then StopRecording for the motion and the continuous recorder, motion+test interleaved, motion+continuous, 120-frame recording with several buffer flushes) and frame sizes 8x6 (and 160x120 thorough): one run with a concurrent-observer decode of every *.cptv at EVERY file-system operation boundary, then one run per crash point (kill before operation k, k=1..N) and per torn write, each followed by the real deleteTempFiles; for every crash point also a second kill before every operation of that clean-up followed by a further start-up, and second generations (after crash and clean-up the restarted daemon records a further history into the same directory and is killed before every one of its operations, then cleans up again); only complete, content-exact recordings may bear .cptv and nothing else may remain.",
          "Process-kill semantics (completed operations persist, user-space buffers lost); power loss / fsync ordering is not modelled (C10 does not claim it). The shim is swapped in by rewriting the `os`/`time` imports of copies of cptvfilerecorder.go and go-cptv's writer.go/filewriter.go at check time.",
          "DESIGN.md §4 C10"),
  "C11": ("D-end-to-end-driver",
          "exhaustive pair/boundary enumeration of frame contents and metadata through the real CPTVFileRecorder and standard reader; end-to-end enumeration of config.toml setting combinations through the real ParseConfig + handleConn on an in-memory connection, differential against a harness-wired real MotionProcessor",
-         "Recorder level: every ordered pair of images over a 2-pixel (quick) / 4-pixel (thorough, 1.68 M pairs) block x six byte-boundary values as consecutive frames, every position x value on 8x6 (sampled on 160x120), telemetry/ids/strings (0,1,255 bytes, YAML-hostile)/location components/threshold/preview/fps one field at a time. End to end: every combination of camera model (boson, lepton3, lepton3.5 with model motion defaults) x (min,max,preview) x trigger frames x throttling x continuous recorder (quick: every 5th), each with a motion-burst stream; every finished file is compared frame by frame and field by field with the recording predicted from the settings.",
+         "Recorder level: every ordered pair of images over a 3-pixel (quick, 46 656 pairs) / 4-pixel (thorough, 1.68 M pairs) block x six byte-boundary values as consecutive frames, every position x value on 8x6 (sampled on 160x120), telemetry/ids/strings (0,1,255 bytes, YAML-hostile)/location components/threshold/preview/fps one field at a time. End to end: every combination of camera model (boson, lepton3, lepton3.5 with model motion defaults) x (min,max,preview) x trigger frames x throttling x continuous recorder, each with a motion-burst stream (thorough: three motion patterns, one still in progress when the connection ends), plus the camera reconnecting as another model on the same daemon; every finished file is compared frame by frame and field by field with the recording predicted from the settings.",
          "Universality over 16-bit data is outside what enumeration gives (alphabets are stated in the evidence). Empty brand/model/firmware strings are stored as 'absent' by the format and not compared. Throttling with min-secs+preview-secs = 0 is excluded (library panic, noted in DESIGN.md).",
          "DESIGN.md §4 C11"),
  "C14": ("D-end-to-end-driver",
@@ -104,8 +104,8 @@ CHECKS = {
          "DESIGN.md §4 C16"),
  "C18": ("B-controlled-scheduler",
          "stateless exploration of all interleavings up to a deviation bound (preemptions + timer fires) of thermal-writer's real reader and writer goroutines under a cooperative scheduler; happens-before race detection on the frame buffers; CPTR parse oracle",
-         "The real handleConn + writer on instrumented copies (channel send/receive/close, go, select with the rotation timer and Go's random pick as explored choices): buffer pool scaled to 1,2,3 with 0..2N+2 frames, trailing partial frame, short read, and the original 256 with 258 frames (bound 1); every interleaving with <=2 (3 thorough) deviations. Files must parse as CPTR and concatenate to exactly the frames sent; no deadlock/panic; buffer fill and buffer write must be ordered by channel happens-before.",
-         "inFlight and the 32 MiB bufio size are scaled by the instrumenter (run-time parameter / literal override); frame size 8 bytes. SC interleavings at channel-operation granularity + HB race check.",
+         "The real handleConn + writer on instrumented copies (channel send/receive/close, go, select with the rotation timer and Go's random pick as explored choices): buffer pool scaled to 1,2,3 with 0..2N+2 frames, trailing partial frame, short read, the original 256 with 258 frames (bound 1), a read boundary at every offset of a 3-frame stream (bound 1), frame sizes 1, 7, 9 and 70000 bytes (bound 1), and the camera reconnecting within the same process with another frame size; every interleaving with <=2 (3 thorough) deviations. Files must parse as CPTR and concatenate to exactly the frames sent; no deadlock/panic; buffer fill and buffer write must be ordered by channel happens-before.",
+         "inFlight and the 32 MiB bufio size are scaled by the instrumenter (run-time parameter / literal override); the bound-2/3 scenarios use 8-byte frames. Thorough: 14 processes, bound 3 complete, bound 4 under a 35-minute cap (reported per scenario; exhaustive:false then refers to bound 4). SC interleavings at channel-operation granularity + HB race check.",
          "DESIGN.md §4 C18"),
 }
 NOT_BUILT = "check not built yet (work in progress)"
